@@ -154,6 +154,10 @@ def run(ctx):
         elif kind == "conv_ad":
             conversions_ad(ctx)
             numeric_small_components(ctx, specs, 30 if ctx.quick else 600)
+            # the group-level (quaternion / MRP) kinematic Jacobians are Jacobians too: exact at every rotation magnitude,
+            # including the small ones (oracle shared with C05)
+            from .c05 import group_jacobians
+            group_jacobians(ctx, 4000 if ctx.quick else 100000)
 
 
 def numeric_small_components(ctx, specs, n):
